@@ -84,14 +84,21 @@ def payloadDump : PVal → String
 def joinHex (l : List Bytes) : String := if l.isEmpty then "none" else String.intercalate "," (l.map hex)
 
 /-- the harness's deterministic recipients (see `mkRecipients` in ops_msg.go) -/
-def mkRecipients (spec : String) : List Recip :=
+def mkRecipients (spec0 : String) : List Recip :=
+  -- "r2k:<hex>": the last recipient carries the kid <hex>
+  let (spec, lastKid) : String × Option Bytes := match spec0.splitOn "k:" with
+    | [a, h] => (a, unhex h)
+    | _ => (spec0, none)
   let n := (spec.toList.getD 1 '0').toNat - '0'.toNat
   let nilU := spec.endsWith "n"
   let nested := spec.endsWith "s" || nilU
   (List.range n).map (fun i =>
     let prot : CMap := if i == 1 then [] else [(Msg.lbl 1, .int .int (-6))]
     let ct : Bytes := if i == 1 then [1, 2, 3] else []
-    let r0 : Recip0 := ⟨prot, if nilU then none else some [(Msg.lbl 4, .bytes [UInt8.ofNat (0x30 + i)])], some ct⟩
+    let kid : Bytes := match lastKid with
+      | some k => if i + 1 == n then k else [UInt8.ofNat (0x30 + i)]
+      | none => [UInt8.ofNat (0x30 + i)]
+    let r0 : Recip0 := ⟨prot, if nilU then none else some [(Msg.lbl 4, .bytes kid)], some ct⟩
     let subs : List Recip0 := if i == 0 && nested then
       [⟨[(Msg.lbl 1, .int .int (-3))], if nilU then none else some [(Label.text [0x78], .str [0x79])], some [9]⟩] else []
     ⟨r0, subs⟩)
@@ -135,7 +142,9 @@ def opProduce (a : List String) : String :=
            | .sign =>
              (match keys.mapM mkSigner with
               | none => "err key"
-              | some ss =>
+              | some ss0 =>
+                -- `noalg`: the signers report a key without algorithm (only the kid)
+                let ss := if recipS == "noalg" then ss0.map (fun s => { s with key := { s.key with alg := 0 } }) else ss0
                 match produceSign m0 ss ext with
                 | .ok m =>
                   (match m.mm with
